@@ -583,8 +583,12 @@ def write_evidence(prop, pid, tier, verif_seed, results, wall, nclasses,
         'wall_s': round(wall, 2),
         'violations': len(new_violations),
     }
-    os.makedirs(os.path.join(VERIF, 'evidence'), exist_ok=True)
-    with open(os.path.join(VERIF, 'evidence', f'{pid}.json'), 'w') as f:
+    # VERIF_EVIDENCE_DIR: sensitivity runs against a deliberately broken tree
+    # (tools/seed_eval.py) must not overwrite the evidence of the real tree
+    evdir = os.environ.get('VERIF_EVIDENCE_DIR') or os.path.join(VERIF,
+                                                                 'evidence')
+    os.makedirs(evdir, exist_ok=True)
+    with open(os.path.join(evdir, f'{pid}.json'), 'w') as f:
         json.dump(ev, f, indent=1, default=_jd)
     if zero:
         print(f'[{pid}] WARNING probes stuck at zero: {zero}', flush=True)
